@@ -24,7 +24,7 @@ LEVEL_TEXT = ('Real DataSender/IO/DataReader run on a scripted socket; exhaustiv
 LEVEL_NOTE = 'Trusted: ScriptSocket (60 lines), the expected() rule (x or x+CRLF), segment generator.'
 TECHNIQUE = 'runtime monitoring: round-trip + exact-consumption oracle over exhaustive small alphabet and all segmentations'
 RULE = ('case = one message x; for it every split of x into sender parts at line boundaries '
-        '(cap 16 subsets), 6 trailers, pre-buffered first segment or not, and every segmentation '
+        '(cap 16 subsets, plus variants with empty parts at the front, the end and between parts), 6 trailers, pre-buffered first segment or not, and every segmentation '
         'of the wire for wires <= 9 bytes (else whole, bytewise, every single cut, pairs of cuts '
         'around the end-of-data line, seeded random) is one evaluation. x is enumerated '
         'exhaustively over {".",CR,LF,"a"} up to the tier bound, then seeded 8-bit random. '
@@ -74,13 +74,22 @@ def partsets(x, rnd):
     else:
         subsets = [(), tuple(idx)] + [tuple(sorted(rnd.sample(idx, rnd.randint(1, len(idx) - 1))))
                                       for _ in range(6)]
-    for cuts in subsets[:16]:
+    for n, cuts in enumerate(subsets[:16]):
         parts, last = [], 0
         for c in cuts:
             parts.append(x[last:c])
             last = c
         parts.append(x[last:])
         yield parts
+        # a split at offset 0, a repeated split point or a split at the very end is still a split
+        # at a line boundary and gives an EMPTY part (the relay itself calls
+        # send_data(header_data, message_data) with a possibly empty header block)
+        if n < 2:
+            yield [b''] + parts
+            yield parts + [b'']
+            if len(parts) > 1:
+                yield parts[:1] + [b''] + parts[1:]
+                yield parts[:-1] + [b'', b''] + parts[-1:]
 
 
 def is_nontrivial(x):
